@@ -483,3 +483,45 @@ package ipfscluster
 //@   ensures [peer-addresses] err == nil ==> len(jcfg.PeerAddresses) == len(cfg.PeerAddresses) && forall j int :: 0 <= j && j < len(cfg.PeerAddresses) ==> jcfg.PeerAddresses[j] == cfg.PeerAddresses[j].String()
 //@   ensures [follower-mode] err == nil ==> jcfg.FollowerMode == cfg.FollowerMode
 //@   modifies nothing
+
+// ---- C06: the cluster-wide status of one CID ----
+//@ spec func pkey(p peer.ID) string = libfn("peer.Encode", 0, p)
+// every peer of the list gets an entry with the given status; entries of other peers stay
+//@ func setTrackerStatus
+//@   property C06
+//@   requires gpin != nil
+//@   ensures [every-listed-peer-filed] forall i int :: 0 <= i && i < len(peers) ==> haskey(gpin.PeerMap, pkey(peers[i])) && gpin.PeerMap[pkey(peers[i])] != nil && gpin.PeerMap[pkey(peers[i])].Status == status
+//@   ensures [entries-only-added] forall k string :: haskey(old(gpin.PeerMap), k) ==> haskey(gpin.PeerMap, k)
+//@   loop 1 (range peers)
+//@     invariant forall i int :: 0 <= i && i < idx1 ==> haskey(gpin.PeerMap, pkey(peers[i]))
+//@     invariant forall i int :: 0 <= i && i < idx1 ==> gpin.PeerMap[pkey(peers[i])] != nil
+//@     invariant forall k string :: haskey(gpin.PeerMap, k) ==> allocated(gpin.PeerMap[k])
+//@     invariant forall i int :: 0 <= i && i < idx1 ==> gpin.PeerMap[pkey(peers[i])].Status == status
+//@     invariant forall k string :: haskey(old(gpin.PeerMap), k) ==> haskey(gpin.PeerMap, k)
+//@   modifies heap(api.GlobalPinInfo), heap(api.PinInfoShort), heap(api.PinInfo)
+
+//@ extern rpc.Client.MultiCall(ctxs, dests, svcName, svcMethod, args, replies)
+//@   ensures len(res) == len(dests)
+//@   modifies nothing
+
+//@ func peersSubtract
+//@   property C06
+//@   ensures [only-from-the-first-list] forall i int :: 0 <= i && i < len(res) ==> in(res[i], elems(a)) && !in(res[i], elems(b))
+//@   ensures [all-of-the-difference] forall j int :: 0 <= j && j < len(a) && !in(a[j], elems(b)) ==> in(a[j], elems(res))
+//@   loop 1 (range b)
+//@     invariant forall p peer.ID :: haskey(bMap, p) <==> (exists j int :: 0 <= j && j < idx1 && b[j] == p)
+//@   loop 2 (range a)
+//@     invariant forall p peer.ID :: haskey(bMap, p) <==> in(p, elems(b))
+//@     invariant forall i int :: 0 <= i && i < len(result) ==> in(result[i], elems(a)) && !in(result[i], elems(b))
+//@     invariant forall j int :: 0 <= j && j < idx2 && !in(a[j], elems(b)) ==> in(a[j], elems(result))
+//@   modifies nothing
+
+// "other members as remote": for a CID of the pinset (and not as a follower) every member that is not asked for its
+// own report - the pin is not allocated to it - is listed, whatever the allocated peers answer
+//@ func (c *Cluster) globalPinInfoCid
+//@   property C06
+//@   requires c != nil
+//@   ensures [unallocated-members-are-listed] err == nil && res != nil && !c.config.FollowerMode && pin != nil ==> forall i int :: 0 <= i && i < len(remote) ==> haskey(res.PeerMap, pkey(remote[i]))
+//@   loop 1 (range replies)
+//@     invariant gpin != nil && forall i int :: 0 <= i && i < len(remote) ==> haskey(gpin.PeerMap, pkey(remote[i]))
+//@   modifies *
